@@ -21,7 +21,7 @@ Fixpoint N_digits (fuel : nat) (n : N) (acc : string) : string :=
       if (n <? 10)%N then d else N_digits f (n / 10) d
   end.
 (* fmt's %d of an unsigned number *)
-Definition N_to_string (n : N) : string := N_digits (S (N.size_nat n)) n "".
+Definition N_to_string (n : N) : string := N_digits (S (N.to_nat (N.size n))) n "".
 
 Definition is_digit (c : ascii) : bool := let n := N_of_ascii c in ((48 <=? n) && (n <=? 57))%N.
 Fixpoint dec_value (s : string) (acc : N) : N :=
@@ -756,4 +756,54 @@ Definition gen_idl (pkg : string) (objs : list mobject) : option string :=
   match gen_all gen_interface objs [] with
   | Some (body, s) => Some ("package " ++ pkg ++ nl ++ body ++ String.concat "" (map gen_struct s))
   | None => None
+  end.
+
+(* ================= what the round trip needs: the hypotheses idl_safe ================= *)
+(* what the IDL name of a type is read back as *)
+Fixpoint ity_of (t : ty) : ity :=
+  match t with
+  | TS SVoid => IRef "nothing"                       (* not a basic type of the IDL grammar *)
+  | TS s => IBasic s
+  | TList e => IList (ity_of e)
+  | TMap k v => IMap (ity_of k) (ity_of v)
+  | TTuple [] => IRef "Tuple<>"                      (* Many needs one element: read as a reference *)
+  | TTuple ts => ITuple (map ity_of ts)
+  | TStruct n _ => IRef n
+  end.
+
+Definition starts_with (p s : string) : bool :=
+  match strip_prefix p s with Some _ => true | None => false end.
+
+(* a struct name the type parser reads back as a reference to that name *)
+Definition safe_name (n : string) : bool :=
+  is_struct_name n && negb (existsb (fun k => starts_with k n) idl_basic_names) &&
+  negb (starts_with "Map<" n) && negb (starts_with "Tuple<" n) && negb (starts_with "Vec<" n).
+
+Fixpoint idl_safe (t : ty) : bool :=
+  match t with
+  | TS s => negb (scalar_eqb s SVoid)
+  | TList e => idl_safe e
+  | TMap k v => idl_safe k && idl_safe v
+  | TTuple ts => match ts with [] => false | _ => forallb idl_safe ts end
+  | TStruct n fs => safe_name n && forallb (fun f => is_ident (fst f) && idl_safe (snd f)) fs
+  end.
+
+(* every struct inside t is declared in the scope under its name, with its own members *)
+Fixpoint scope_has (sc : scope) (t : ty) : Prop :=
+  match t with
+  | TS _ => True
+  | TList e => scope_has sc e
+  | TMap k v => scope_has sc k /\ scope_has sc v
+  | TTuple ts => (fix all (l : list ty) : Prop := match l with [] => True | x :: r => scope_has sc x /\ all r end) ts
+  | TStruct n fs =>
+      lookup n sc = Some (ScStruct n (map (fun f => (fst f, ity_of (snd f))) fs)) /\
+      (fix all (l : list (string * ty)) : Prop := match l with [] => True | x :: r => scope_has sc (snd x) /\ all r end) fs
+  end.
+
+(* what may follow a type expression: the end of the text, or a character that is neither part
+   of a name nor '<' *)
+Definition follow_idl (rest : string) : bool :=
+  match rest with
+  | EmptyString => true
+  | String c _ => negb (is_alnum_ c) && negb (Ascii.eqb c "<")
   end.
